@@ -27,6 +27,20 @@ def generate(rng, tier):
         kind = KINDS[i % len(KINDS)]
         h = history(rng, kind, steps, nscenes=rng.randint(2, 3), api_mix=(i % 3 == 0))
         cases.append(with_projections(h))
+    # a crowded neighbour scene: one frame of > 1000 detections in scene 1 between two frames of scene 0 whose second one is a
+    # contested assignment (best-first and optimal differ): anything that makes a scene's association depend on the size of the
+    # whole store (a fallback for "large" problems, a capacity computed over all scenes) shows against the projection onto scene 0
+    for j in range({"quick": 2, "thorough": 6, "search": 3}.get(tier, 2)):
+        kind = ("sort", "bsort")[j % 2]
+        ox, oy = rng.uniform(0, 50), rng.uniform(0, 50)
+        box = lambda x, y: (x, y, None, 1.0, 20.0, 1.0, None)
+        h = [new_line(rng, kind, shards=rng.randint(1, 4), hist=3, max_idle=5, method=("iou", 0.3), minconf=0.05, constraints=[])]
+        h.append(predict_line([(0, [box(ox, oy), box(ox + 12.0, oy)])]))
+        crowd = [box(1000.0 + 100.0 * (k % 40), 1000.0 + 100.0 * (k // 40)) for k in range(1100)]
+        h.append(predict_line([(1, crowd)]))
+        h.append(predict_line([(0, [box(ox + 4.0, oy), box(ox - 5.0, oy)])]))
+        h.append(predict_line([(0, [box(ox + 4.5, oy + 0.5), box(ox - 5.5, oy + 0.5)])]))      # (never the same box twice: the executor tells detections apart by their centre)
+        cases.append(with_projections(h))
     return cases
 
 
